@@ -5,7 +5,7 @@ from props._cfg_common import TRUSTED, ASSUMPTIONS, TECHNIQUE
 
 PROP = "C12"
 LEVEL = "proof"
-THEOREMS = {"Properties.C12": ["C12_generating", "C12_nullable", "C12_reachable", "C12_is_empty", "C12_get_words", "C12_graph_acyclic", "C12_is_finite", "C12_normal_form_useful", "C12_is_finite_correct"]}
+THEOREMS = {"Properties.C12": ["C12_generating", "C12_nullable", "C12_reachable", "C12_is_empty", "C12_get_words", "C12_graph_acyclic", "C12_is_finite", "C12_normal_form_useful", "C12_is_finite_correct", "C12_get_words_stop_rule"]}
 LEVEL_TEXT = ("Coq theorems (no axioms, all grammars): generating, nullable and reachable symbols are exactly the symbols deriving a terminal word / the empty word / "
               "occurring in a sentential form from the start symbol (least fixed points; the counter worklists of the code are modelled, not mirrored: the sets are unique); "
               "is_empty is exactly 'no word generated'; get_words(n) is modelled by its specification (each word of length <= n once) and proved. is_finite mirrors the "
